@@ -4,6 +4,8 @@
 #![allow(dead_code)]
 use super::*;
 
+pub(crate) const CAP: usize = 16;
+
 pub(crate) struct Ctl {
     pub fail_at: usize,
     pub tokens: usize,
